@@ -42,9 +42,10 @@ class ListSpacing(str, Enum):
 def _normalize_title_quotes(title: str) -> str:
     """
     Render a link or image title (given as its plain text, without delimiters or escapes)
-    in double quotes, escaping the double quotes it contains.
+    in double quotes, escaping the double quotes it contains (and any backslash that would
+    otherwise be read as the start of an escape).
     """
-    escaped = title.replace('"', '\\"')
+    escaped = re.sub(r"\\(?=[!-/:-@\[-`{-~]|$)", r"\\\\", title).replace('"', '\\"')
     return f'"{escaped}"'
 
 
